@@ -38,6 +38,27 @@ Definition suffix_step (pe : PE) (ps : PS) (L : Z) (left : expr) (ll : Z) (ts : 
       | TId s :: r' => if S_Member <=? ll then ps L (EDot left s) S_Member r' else None
       | _ => None
       end
+    else if is_lbrack t then
+      if S_Member <=? ll then
+        match pe 0 r with
+        | Some (i, c :: r') => if is_rbrack c then ps L (EIndex left i) S_Member r' else None
+        | _ => None
+        end
+      else None
+    else if is_quest t then
+      if S_Cond <=? L then Some (left, ts)
+      else if S_Cond <? ll then
+        match pe 3 r with
+        | Some (y, c :: r') =>
+            if is_colon c then
+              match pe 3 r' with
+              | Some (no, r'') => ps L (ECond left y no) S_Cond r''
+              | None => None
+              end
+            else None
+        | _ => None
+        end
+      else None
     else match postfix_op t with
     | Some o =>
         if S_Update <=? L then Some (left, ts)
@@ -88,7 +109,16 @@ Proof.
   destruct (is_dot t).
   - destruct r0 as [|[s| | |] r']; try discriminate.
     destruct (S_Member <=? ll); [|discriminate]. apply Hs. exact H.
-  - destruct (postfix_op t).
+  - destruct (is_lbrack t).
+    { destruct (S_Member <=? ll); [|discriminate].
+      destruct (pe 0 r0) as [[i [|c r']]|] eqn:E; try discriminate. rewrite (He _ _ _ E).
+      destruct (is_rbrack c); [|discriminate]. apply Hs. exact H. }
+    destruct (is_quest t).
+    { destruct (S_Cond <=? L); [exact H|]. destruct (S_Cond <? ll); [|discriminate].
+      destruct (pe 3 r0) as [[y [|c r']]|] eqn:E; try discriminate. rewrite (He _ _ _ E).
+      destruct (is_colon c); [|discriminate].
+      destruct (pe 3 r') as [[no r'']|] eqn:E2; [|discriminate]. rewrite (He _ _ _ E2). apply Hs. exact H. }
+    destruct (postfix_op t).
     + destruct (S_Update <=? L); [exact H|].
       destruct ((S_Member <=? ll) && is_target left); [|discriminate]. apply Hs. exact H.
     + destruct (binary_op t); [|exact H].
